@@ -250,6 +250,42 @@ pub fn lanes_for(prop: &str, tier: &str, seed: u64) -> Vec<Scenario> {
             std::process::exit(2);
         }
     }
+    // the flag that is given, preceded by its opposite (the later one counts); a quote and a blank
+    // in the name of the directory a document lives in
+    let mut more: Vec<Scenario> = vec![];
+    for (k, s) in v.iter().enumerate() {
+        if s.tier == Tier::Cli && s.partner.is_none() && (s.cli.combine_output.is_some() || s.cli.keep_crlf.is_some()) && k % 2 == 0 {
+            let mut c = s.clone();
+            c.cli.negated_first = true;
+            c.lane = format!("{}/negated-first", s.lane);
+            more.push(c);
+        }
+        // (single-script documents anywhere: their environment travels as text in the script)
+        let plain_layout = s.cli.prepend.is_empty()
+            && s.cli.append.is_empty()
+            && s.cli.missing_paths.is_empty()
+            && s.cli.command.is_none()
+            && s.docs.iter().all(|d| d.prepend.is_empty() && d.append.is_empty() && d.stored_at.is_none() && d.path.contains('/'));
+        if s.tier == Tier::Cli && s.partner.is_none() && plain_layout && !s.lane.starts_with("env/") && (s.script_mode || s.cli.cram_compat) && k % 3 == 0 {
+            let mut c = s.clone();
+            for d in c.docs.iter_mut() {
+                if let Some(i) = d.path.find('/') {
+                    d.path = format!("{}'s q{}", &d.path[..i], &d.path[i..]);
+                }
+            }
+            c.lane = format!("{}/quoted-dir", s.lane);
+            more.push(c);
+        }
+        if s.tier == Tier::Cli && s.partner.is_none() && s.lane.starts_with("env/") && s.lane.ends_with("/one") && s.docs.iter().all(|d| d.path.starts_with("suite/")) {
+            let mut c = s.clone();
+            for d in c.docs.iter_mut() {
+                d.path = d.path.replacen("suite/", "it's a suite/", 1);
+            }
+            c.lane = format!("{}/quoted-dir", s.lane);
+            more.push(c);
+        }
+    }
+    v.extend(more);
     // scrut started in an environment with variables named after its options, or a stale PWD
     let he: Vec<Scenario> = gen_cli::lane_host_env(seed, prop).into_iter().filter(|s| s.check.iter().any(|c| c == prop)).collect();
     v.extend(he);
